@@ -482,7 +482,14 @@ def case_term(text, ops, static, hist):
     index = {}
     for k, r in enumerate(recs):
         index.setdefault(r, k)
-    atoms = "; ".join('mkAtom %s %s %s %s %d' % (z(r[0]), lib.coq_bytes(r[1]), lib.coq_bytes(r[2]), z(r[3]), k)
+    # every distinct name is written once (let-bound): string literals are what costs coqc time and memory
+    names = {}
+
+    def nm(x):
+        if x not in names:
+            names[x] = "s%d_" % len(names)
+        return names[x]
+    atoms = "; ".join('mkAtom %s %s %s %s %d' % (z(r[0]), nm(r[1]), nm(r[2]), z(r[3]), k)
                       for k, r in enumerate(recs))
     rbox = lambda b: "[%s]" % "; ".join(z(int(round(x * 1e5))) for x in b)   # noqa: E731
     f = "(mkGro %s [%s] %s)" % (lib.coq_bytes(ref["title"] + "\n"), atoms, rbox(ref["box"]))
@@ -520,7 +527,8 @@ def case_term(text, ops, static, hist):
         else:
             o = "PErr %s" % ERRMAP.get(val, "EFuel")
         ht.append("(%s, %s)" % (o, optz(cur)))
-    return "chk_c12 %s %s [%s] [%s]" % (f, st, "; ".join(ot), "; ".join(ht))
+    lets = "".join("let %s := %s in " % (v, lib.coq_bytes(x)) for x, v in names.items())
+    return "(%schk_c12 %s %s [%s] [%s])" % (lets, f, st, "; ".join(ot), "; ".join(ht))
 
 
 # ------------------------------------------------------------------ corpus
@@ -662,7 +670,14 @@ def correspondence(ctx):
     for m in (metas[0], metas[4], metas[-1]):
         ctx.sample({"meta": m["meta"], "ops": m["ops"][:12], "gro_head": m["gro"][:400]})
     shard = max(1, (len(cases) + 47) // 48)
-    codes, log = lib.run_coq_cases(ctx.cid, "K", HEADER, cases, shard=shard)
+    # 8 parallel coqc (about 0.5 GB each, half of it the standard library): the machine is shared
+    codes, log = lib.run_coq_cases(ctx.cid, "K", HEADER, cases, shard=shard, jobs=8)
+    for jobs in (4, 2):
+        # a coqc process killed from outside (the machine is shared: global out-of-memory killer, timeouts under
+        # load) is not a verdict about the code: run the shards again with less parallelism before giving up
+        if codes is None and ("Killed" in log or "TIMEOUT" in log or "Out of memory" in log or "Terminated" in log):
+            ctx.notes.append("K: coqc was killed from outside, cases re-run with %d jobs" % jobs)
+            codes, log = lib.run_coq_cases(ctx.cid, "K", HEADER, cases, shard=shard, jobs=jobs)
     K = ctx.cov["K"]
     K["cases"] = len(cases)
     K["operations"] = sum(len(m["ops"]) for m in metas)
